@@ -4,15 +4,21 @@
   Model: EV.Model.Pset (`from_tx`, `extract_tx`, `unique_id`, `locktime` as coded).  Hashes are a
   parameter (`H : Hashes`); "the id commits to X" is stated as `equal ids → equal X ∨ Collision`.
   Proofs: EV.Proofs.PsetRoundTrip, PsetExtract, PsetId, PsetLocktime, PsetLockKind.
+
+  Last section: lock times and sequence numbers as types (model EV.Model.LockTime of src/locktime.rs
+  `LockTime`/`Height`/`Time` and src/transaction.rs `Sequence`; proofs EV.Proofs.LockTime) and the bridge
+  from the BIP370 selection to `LockTime::is_satisfied_by`.
 -/
 import EV.Proofs.PsetRoundTrip
 import EV.Proofs.PsetExtract
 import EV.Proofs.PsetId
 import EV.Proofs.PsetLocktime
 import EV.Proofs.PsetLockKind
+import EV.Proofs.LockTime
 namespace EV.Props.C08
 open EV EV.Codec EV.Proofs.CodecTx EV.Proofs.PsetRoundTrip EV.Proofs.PsetExtract EV.Proofs.PsetId
   EV.Proofs.PsetLocktime EV.Proofs.PsetLockKind
+open EV.Lock EV.Proofs.LockTime
 
 variable (P : Prims) (H : Hashes)
 
@@ -361,5 +367,432 @@ example :
     let q := Pset.fromTx ⟨2, 0, [⟨⟨List.replicate 32 1, 0⟩, false, [], 0xffffffff, AssetIssuance.null, TxInWitness.empty⟩], []⟩
     let r := Pset.fromTx ⟨2, 0, [⟨⟨List.replicate 32 2, 0⟩, false, [1], 5, AssetIssuance.null, TxInWitness.empty⟩], []⟩
     idTx p = idTx q ∧ idTx p ≠ idTx r := by decide
+
+/-! ### lock times and sequence numbers (EV.Model.LockTime)
+
+`LockTime`, `Height`, `Time` of src/locktime.rs and `Sequence` of src/transaction.rs, over `Nat` with the
+Rust widths as hypotheses where they matter.  The model reads every literal from `EV.Gen` (regenerated from
+/repo); the statements below are written with the consensus numbers (BIP-65 threshold 500000000, BIP-68 bits
+31 and 22, 16-bit value, 512-second granularity, BIP-125 0xfffffffe), so a changed literal in the source
+breaks a proof here. -/
+
+/-- the regenerated literals are the consensus ones -/
+theorem lt_constants :
+    EV.Gen.lockTimeThreshold = 500000000 ∧ LockTime.zero = .blocks ⟨0⟩ ∧ Height.zero = ⟨0⟩ ∧
+    Sequence.max = ⟨0xffffffff⟩ ∧ Sequence.zero = ⟨0⟩ ∧ Sequence.minNoRbf = ⟨0xfffffffe⟩ ∧
+    Sequence.enableLocktimeNoRbf = ⟨0xfffffffe⟩ ∧ Sequence.enableRbfNoLocktime = ⟨0xfffffffd⟩ ∧
+    Sequence.default = Sequence.max ∧
+    Sequence.lockTimeDisableFlagMask = 2^31 ∧ Sequence.lockTypeMask = 2^22 ∧
+    EV.Gen.sequenceFloorGranularity = 512 ∧ EV.Gen.sequenceCeilGranularity = 512 := by decide
+
+/-- **`LockTime::from_consensus` is total and splits exactly at the threshold**: below 500000000 a block
+    height, at or above a block time, the value kept; in particular neither `expect("n is valid")` fires -/
+theorem lt_from_consensus_total (n : Nat) :
+    LockTime.fromConsensus n = .ok (if n < 500000000 then .blocks ⟨n⟩ else .seconds ⟨n⟩) := by
+  rw [fromConsensus_eq, threshold_eq]
+
+/-- `to_consensus_u32` undoes `from_consensus` ("`from_consensus` roundtrips as expected with `to_consensus_u32`") -/
+theorem lt_consensus_roundtrip (n : Nat) (l : LockTime) (h : LockTime.fromConsensus n = .ok l) :
+    l.toConsensusU32 = n := toConsensus_fromConsensus n l h
+example : LockTime.fromConsensus 500000000 = .ok (.seconds ⟨500000000⟩) := by decide
+
+/-- **`from_consensus` / `to_consensus_u32` are inverse bijections between `u32` and the values of
+    `LockTime`** (`Valid`: a `Blocks` payload below the threshold, a `Seconds` payload a `u32` at or above it) -/
+theorem lt_consensus_bijection :
+    (∀ n, n < 2^32 → ∃ l, LockTime.fromConsensus n = .ok l ∧ l.Valid ∧ l.toConsensusU32 = n) ∧
+    (∀ l : LockTime, l.Valid → l.toConsensusU32 < 2^32 ∧ LockTime.fromConsensus l.toConsensusU32 = .ok l) := by
+  constructor
+  · intro n hn
+    refine ⟨_, fromConsensus_eq n, fromConsensus_valid n hn _ (fromConsensus_eq n), ?_⟩
+    exact toConsensus_fromConsensus n _ (fromConsensus_eq n)
+  · intro l hv
+    exact ⟨valid_lt_u32 l hv, fromConsensus_toConsensus l hv⟩
+example : (LockTime.blocks ⟨499999999⟩).Valid ∧ (LockTime.seconds ⟨0xffffffff⟩).Valid := by decide
+
+/-- the unit predicates are the threshold test -/
+theorem lt_unit_split (n : Nat) (l : LockTime) (h : LockTime.fromConsensus n = .ok l) :
+    (l.isBlockHeight = true ↔ n < 500000000) ∧ (l.isBlockTime = true ↔ 500000000 ≤ n) := by
+  rw [fromConsensus_ok n l h, threshold_eq]
+  by_cases hn : n < 500000000
+  · simp [hn, LockTime.isBlockHeight, LockTime.isBlockTime]
+  · simp [hn, LockTime.isBlockHeight, LockTime.isBlockTime]; omega
+
+/-- **`from_height` succeeds iff the value is below the threshold** (then it is that height; otherwise an
+    error, never a panic) -/
+theorem lt_from_height_iff (n : Nat) :
+    (n < 500000000 → LockTime.fromHeight n = .ok (.blocks ⟨n⟩)) ∧
+    (500000000 ≤ n → ∃ e, LockTime.fromHeight n = .err e) := by
+  rw [fromHeight_eq, threshold_eq]
+  constructor
+  · intro h; rw [if_pos h]
+  · intro h; rw [if_neg (by omega)]; exact ⟨_, rfl⟩
+
+/-- **`from_time` succeeds iff the value is at or above the threshold** -/
+theorem lt_from_time_iff (n : Nat) :
+    (500000000 ≤ n → LockTime.fromTime n = .ok (.seconds ⟨n⟩)) ∧
+    (n < 500000000 → ∃ e, LockTime.fromTime n = .err e) := by
+  rw [fromTime_eq, threshold_eq]
+  constructor
+  · intro h; rw [if_pos h]
+  · intro h; rw [if_neg (by omega)]; exact ⟨_, rfl⟩
+
+/-- `Height::from_consensus` / `Time::from_consensus` are the same tests and produce values of the types -/
+theorem lt_height_time_constructors (n : Nat) :
+    (Height.fromConsensus n = if n < 500000000 then .ok ⟨n⟩ else .err "Conversion(invalid_height)") ∧
+    (Time.fromConsensus n = if 500000000 ≤ n then .ok ⟨n⟩ else .err "Conversion(invalid_time)") ∧
+    (∀ h, Height.fromConsensus n = .ok h → h.Valid) ∧
+    (n < 2^32 → ∀ t, Time.fromConsensus n = .ok t → t.Valid) := by
+  refine ⟨?_, ?_, ?_, ?_⟩
+  · simp only [Height.fromConsensus, Lock.isBlockHeight, decide_eq_true_eq, threshold_eq]
+  · simp only [Time.fromConsensus, Lock.isBlockTime, decide_eq_true_eq, threshold_eq, ge_iff_le]
+  · intro h hh
+    simp only [Height.fromConsensus, Lock.isBlockHeight, decide_eq_true_eq] at hh
+    split at hh
+    · cases hh; assumption
+    · cases hh
+  · intro h32 t ht
+    simp only [Time.fromConsensus, Lock.isBlockTime, decide_eq_true_eq, ge_iff_le] at ht
+    split at ht
+    · cases ht; exact ⟨by assumption, h32⟩
+    · cases ht
+
+/-- **`is_satisfied_by` specification**: a lock time is satisfied by (height, time) iff its value is at most
+    the component of its own unit -/
+theorem lt_is_satisfied_by_spec (n : Nat) (l : LockTime) (h : LockTime.fromConsensus n = .ok l)
+    (hgt : Height) (tm : Time) :
+    l.isSatisfiedBy hgt tm = true ↔ (if n < 500000000 then n ≤ hgt.n else n ≤ tm.n) := by
+  rw [fromConsensus_ok n l h, threshold_eq]
+  by_cases hn : n < 500000000 <;> simp [hn, LockTime.isSatisfiedBy, Height.le, Time.le]
+example : (LockTime.blocks ⟨5⟩).isSatisfiedBy ⟨5⟩ ⟨500000000⟩ = true ∧
+    (LockTime.blocks ⟨5⟩).isSatisfiedBy ⟨4⟩ ⟨0xffffffff⟩ = false ∧
+    (LockTime.seconds ⟨500000001⟩).isSatisfiedBy ⟨499999999⟩ ⟨500000000⟩ = false := by decide
+
+/-- **monotone in height and time**: what satisfies a lock time keeps satisfying it later -/
+theorem lt_is_satisfied_by_monotone (l : LockTime) (hgt hgt' : Height) (tm tm' : Time)
+    (h : l.isSatisfiedBy hgt tm = true) (hh : hgt.n ≤ hgt'.n) (ht : tm.n ≤ tm'.n) :
+    l.isSatisfiedBy hgt' tm' = true := by
+  cases l <;> simp_all [LockTime.isSatisfiedBy, Height.le, Time.le] <;> omega
+example : (LockTime.seconds ⟨500000001⟩).isSatisfiedBy ⟨0⟩ ⟨500000001⟩ = true := by decide
+
+/-- **`ZERO` is always satisfied** ("able to be included immediately in any block") -/
+theorem lt_zero_always_satisfied (hgt : Height) (tm : Time) : LockTime.zero.isSatisfiedBy hgt tm = true := by
+  rw [zero_eq]
+  simp [LockTime.isSatisfiedBy, Height.le]
+
+/-- `ZERO` is the lock time of consensus value 0 -/
+theorem lt_zero_is_consensus_zero : LockTime.fromConsensus 0 = .ok LockTime.zero ∧ LockTime.zero.toConsensusU32 = 0 := by
+  decide
+
+/-- **comparison**: `partial_cmp` is the comparison of the values within a unit and `None` across units;
+    `is_same_unit` is an equivalence with the two units as classes -/
+theorem lt_partial_cmp_spec (a b : LockTime) :
+    a.partialCmp b = (if a.isSameUnit b then some (cmpNat a.toConsensusU32 b.toConsensusU32) else none) ∧
+    (a.isSameUnit b = (a.isBlockHeight == b.isBlockHeight)) ∧
+    (a.le b = true ↔ a.isSameUnit b = true ∧ a.toConsensusU32 ≤ b.toConsensusU32) := by
+  refine ⟨?_, ?_, le_iff a b⟩ <;> cases a <;> cases b <;> rfl
+
+/-- a lock time that is `<=` a satisfied one is satisfied (the documented use of `partial_cmp`: `n <= lock_time`) -/
+theorem lt_is_satisfied_by_antitone (q l : LockTime) (hgt : Height) (tm : Time) (hle : q.le l = true)
+    (hs : l.isSatisfiedBy hgt tm = true) : q.isSatisfiedBy hgt tm = true :=
+  isSatisfiedBy_of_le q l hgt tm hle hs
+example : (LockTime.blocks ⟨3⟩).le (.blocks ⟨7⟩) = true ∧ (LockTime.blocks ⟨7⟩).isSatisfiedBy ⟨7⟩ ⟨500000000⟩ = true := by
+  decide
+
+/-- … and for a transaction lock time `txl` of the same unit as `n`, "`n` is satisfied" is `n <= txl` -/
+theorem lt_satisfied_is_le (l : LockTime) (hgt : Height) (tm : Time) :
+    l.isSatisfiedBy hgt tm = l.le (match l with | .blocks _ => .blocks hgt | .seconds _ => .seconds tm) := by
+  cases l with
+  | blocks x =>
+    simp only [LockTime.isSatisfiedBy, LockTime.le, LockTime.partialCmp, Height.le, Height.cmp]
+    unfold cmpNat
+    by_cases h1 : x.n < hgt.n
+    · simp [h1]; omega
+    · by_cases h2 : x.n = hgt.n
+      · simp [h2]
+      · simp [h1, h2]; omega
+  | seconds x =>
+    simp only [LockTime.isSatisfiedBy, LockTime.le, LockTime.partialCmp, Time.le, Time.cmp]
+    unfold cmpNat
+    by_cases h1 : x.n < tm.n
+    · simp [h1]; omega
+    · by_cases h2 : x.n = tm.n
+      · simp [h2]
+      · simp [h1, h2]; omega
+
+/-- **text**: `FromStr` undoes `Display` on every value of each type (decimal through `parse::int::<u32>`,
+    C20 `text_roundtrip_u32`) -/
+theorem lt_text_roundtrip :
+    (∀ l : LockTime, l.Valid → LockTime.fromStr (l.display false) = .ok l) ∧
+    (∀ h : Height, h.Valid → Height.fromStr h.display = .ok h) ∧
+    (∀ t : Time, t.Valid → Time.fromStr t.display = .ok t) ∧
+    (∀ s : Sequence, s.Valid → Sequence.fromStr s.display = .ok s) :=
+  ⟨lockTime_fromStr_display, height_fromStr_display, time_fromStr_display, sequence_fromStr_display⟩
+example : (Sequence.mk 0xffffffff).Valid ∧ (Height.mk 0).Valid ∧ (Time.mk 500000000).Valid := by decide
+
+/-- the alternate `Display` names the unit -/
+example : String.ofList ((LockTime.blocks ⟨100⟩).display true) = "block-height 100" ∧
+    String.ofList ((LockTime.seconds ⟨500000000⟩).display true) = "block-time 500000000 (seconds since epoch)" ∧
+    String.ofList ((LockTime.blocks ⟨100⟩).display false) = "100" := by decide
+
+/-! #### Sequence -/
+
+/-- **`is_final` ↔ 0xffffffff; `enables_absolute_lock_time` ↔ not final; `is_rbf` ↔ below 0xfffffffe** -/
+theorem seq_final_rbf (s : Sequence) :
+    (s.isFinal = true ↔ s.n = 0xffffffff) ∧
+    (s.enablesAbsoluteLockTime = true ↔ s.n ≠ 0xffffffff) ∧
+    (s.enablesAbsoluteLockTime = !s.isFinal) ∧
+    (s.isRbf = true ↔ s.n < 0xfffffffe) := by
+  obtain ⟨n⟩ := s
+  have h1 : (Sequence.mk n).isFinal = true ↔ n = 0xffffffff := by
+    simp only [Sequence.isFinal, seqMax_eq, beq_iff_eq, Sequence.mk.injEq]
+  refine ⟨h1, ?_, rfl, ?_⟩
+  · simp only [Sequence.enablesAbsoluteLockTime, Bool.not_eq_true', ne_eq]
+    rw [← Bool.not_eq_true, h1]
+  · simp only [Sequence.isRbf, seqMinNoRbf_eq, decide_eq_true_eq]
+
+/-- **`is_relative_lock_time` ↔ bit 31 clear; height-locked and time-locked partition the relative lock
+    times by bit 22**; without a relative lock time neither holds -/
+theorem seq_relative_partition (s : Sequence) :
+    (s.isRelativeLockTime = true ↔ s.n.testBit 31 = false) ∧
+    (s.isHeightLocked = true ↔ s.n.testBit 31 = false ∧ s.n.testBit 22 = false) ∧
+    (s.isTimeLocked = true ↔ s.n.testBit 31 = false ∧ s.n.testBit 22 = true) ∧
+    (s.isRelativeLockTime = true → s.isHeightLocked = !s.isTimeLocked) ∧
+    (s.isRelativeLockTime = false → s.isHeightLocked = false ∧ s.isTimeLocked = false) := by
+  refine ⟨isRelativeLockTime_iff s, isHeightLocked_iff s, isTimeLocked_iff s, ?_, ?_⟩
+  · intro hr
+    have h31 := (isRelativeLockTime_iff s).mp hr
+    have hH := isHeightLocked_iff s
+    have hT := isTimeLocked_iff s
+    cases hb : s.n.testBit 22 <;> cases hh : s.isHeightLocked <;> cases ht : s.isTimeLocked <;>
+      simp_all
+  · intro hr
+    simp [Sequence.isHeightLocked, Sequence.isTimeLocked, hr]
+
+/-- a final sequence and the two no-relative-lock constants carry no relative lock time: bit 31 is set from
+    0x80000000 up -/
+theorem seq_relative_iff_below_2_31 (s : Sequence) (hs : s.Valid) :
+    s.isRelativeLockTime = true ↔ s.n < 2^31 := by
+  rw [isRelativeLockTime_iff]
+  constructor
+  · intro h
+    apply Classical.byContradiction
+    intro hge
+    have hge : 2^31 ≤ s.n := Nat.le_of_not_lt hge
+    have hs : s.n < 2^32 := hs
+    have : s.n.testBit 31 = true := by
+      rw [Nat.testBit_eq_decide_div_mod_eq]
+      have : s.n / 2^31 = 1 := by omega
+      simp [this]
+    rw [h] at this; cases this
+  · intro h; exact Nat.testBit_lt_two_pow h
+example : (Sequence.mk 0x7fffffff).Valid := by decide
+
+/-- **`from_height(h)` is a height-locked relative lock time with value `h`** -/
+theorem seq_from_height_spec (h : Nat) (hh : h < 2^16) :
+    (Sequence.fromHeight h).isRelativeLockTime = true ∧ (Sequence.fromHeight h).isHeightLocked = true ∧
+    (Sequence.fromHeight h).isTimeLocked = false ∧ (Sequence.fromHeight h).n % 2^16 = h ∧
+    (Sequence.fromHeight h).n = h := by
+  obtain ⟨b31, b22⟩ := fromHeight_bits h hh
+  refine ⟨(isRelativeLockTime_iff _).mpr b31, (isHeightLocked_iff _).mpr ⟨b31, b22⟩, ?_, Nat.mod_eq_of_lt hh, rfl⟩
+  cases ht : (Sequence.fromHeight h).isTimeLocked with
+  | false => rfl
+  | true => have := ((isTimeLocked_iff _).mp ht).2; rw [b22] at this; cases this
+example : (65535 : Nat) < 2^16 := by decide
+
+/-- **`from_512_second_intervals(i)` is a time-locked relative lock time with value `i`** (bit 22 added) -/
+theorem seq_from_512_spec (i : Nat) (hi : i < 2^16) :
+    (Sequence.from512SecondIntervals i).isRelativeLockTime = true ∧
+    (Sequence.from512SecondIntervals i).isTimeLocked = true ∧
+    (Sequence.from512SecondIntervals i).isHeightLocked = false ∧
+    (Sequence.from512SecondIntervals i).n % 2^16 = i ∧
+    (Sequence.from512SecondIntervals i).n = i + 2^22 := by
+  obtain ⟨b31, b22, hm⟩ := from512_bits i hi
+  refine ⟨(isRelativeLockTime_iff _).mpr b31, (isTimeLocked_iff _).mpr ⟨b31, b22⟩, ?_, hm, from512_n i hi⟩
+  cases ht : (Sequence.from512SecondIntervals i).isHeightLocked with
+  | false => rfl
+  | true => have := ((isHeightLocked_iff _).mp ht).2; rw [b22] at this; cases this
+
+/-- **`from_seconds_floor`**: succeeds exactly below 65536·512 seconds; the result is the time-locked
+    sequence of `⌊s/512⌋` intervals, so `value·512 ≤ s < (value+1)·512`; otherwise `IntegerOverflow` -/
+theorem seq_from_seconds_floor_spec (s : Nat) :
+    (s < 2^16 * 512 → ∃ q, Sequence.fromSecondsFloor s = .ok q ∧ q = Sequence.from512SecondIntervals (s / 512) ∧
+        q.isTimeLocked = true ∧ (q.n % 2^16) * 512 ≤ s ∧ s < (q.n % 2^16 + 1) * 512) ∧
+    (2^16 * 512 ≤ s → Sequence.fromSecondsFloor s = .err "IntegerOverflow") := by
+  rw [fromSecondsFloor_eq]
+  constructor
+  · intro h
+    rw [if_pos h]
+    have hi : s / 512 < 2^16 := by omega
+    have ht := (seq_from_512_spec (s / 512) hi).2.1
+    have hm := (seq_from_512_spec (s / 512) hi).2.2.2.1
+    exact ⟨_, rfl, rfl, ht, floor_bracket s _ hm⟩
+  · intro h
+    rw [if_neg (by omega)]
+
+/-- **`from_seconds_ceil`**: succeeds exactly up to 65535·512 seconds; the result is the time-locked
+    sequence of `⌈s/512⌉` intervals, so `s ≤ value·512 < s + 512`; otherwise `IntegerOverflow` -/
+theorem seq_from_seconds_ceil_spec (s : Nat) :
+    (s ≤ (2^16 - 1) * 512 → ∃ q, Sequence.fromSecondsCeil s = .ok q ∧
+        q = Sequence.from512SecondIntervals ((s + 511) / 512) ∧
+        q.isTimeLocked = true ∧ s ≤ (q.n % 2^16) * 512 ∧ (q.n % 2^16) * 512 < s + 512) ∧
+    ((2^16 - 1) * 512 < s → Sequence.fromSecondsCeil s = .err "IntegerOverflow") := by
+  rw [fromSecondsCeil_eq]
+  constructor
+  · intro h
+    rw [if_pos h]
+    have hi : (s + 511) / 512 < 2^16 := by omega
+    have ht := (seq_from_512_spec ((s + 511) / 512) hi).2.1
+    have hm := (seq_from_512_spec ((s + 511) / 512) hi).2.2.2.1
+    exact ⟨_, rfl, rfl, ht, ceil_bracket s _ hm⟩
+  · intro h
+    rw [if_neg (by omega)]
+
+/-- **floor and ceil bracket the argument**: when both succeed, `floor·512 ≤ s ≤ ceil·512`, they differ by at
+    most one interval and coincide exactly on multiples of 512; neither ever panics -/
+theorem seq_floor_ceil_bracket (s : Nat) (f c : Sequence)
+    (hf : Sequence.fromSecondsFloor s = .ok f) (hc : Sequence.fromSecondsCeil s = .ok c) :
+    (f.n % 2^16) * 512 ≤ s ∧ s ≤ (c.n % 2^16) * 512 ∧ f.n % 2^16 ≤ c.n % 2^16 ∧ c.n % 2^16 ≤ f.n % 2^16 + 1 ∧
+    (f = c ↔ s % 512 = 0) := by
+  rw [fromSecondsFloor_eq] at hf
+  rw [fromSecondsCeil_eq] at hc
+  split at hf
+  · split at hc
+    · rename_i h1 h2
+      cases hf; cases hc
+      have hi1 : s / 512 < 2^16 := by omega
+      have hi2 : (s + 511) / 512 < 2^16 := by omega
+      have hm1 := (seq_from_512_spec (s / 512) hi1).2.2.2.1
+      have hn1 := (seq_from_512_spec (s / 512) hi1).2.2.2.2
+      have hm2 := (seq_from_512_spec ((s + 511) / 512) hi2).2.2.2.1
+      have hn2 := (seq_from_512_spec ((s + 511) / 512) hi2).2.2.2.2
+      obtain ⟨b1, b2, b3, b4⟩ := floor_ceil_bracket s _ _ hm1 hm2
+      refine ⟨b1, b2, b3, b4, ?_⟩
+      constructor
+      · intro he
+        have := congrArg Sequence.n he
+        rw [hn1, hn2] at this
+        exact (floor_eq_ceil_iff s).mp this
+      · intro hz
+        have h3 := (floor_eq_ceil_iff s).mpr hz
+        have h4 : s / 512 = (s + 511) / 512 := Nat.add_right_cancel h3
+        rw [h4]
+    · cases hc
+  · cases hf
+example : Sequence.fromSecondsFloor 1000 = .ok ⟨0x400001⟩ ∧ Sequence.fromSecondsCeil 1000 = .ok ⟨0x400002⟩ ∧
+    Sequence.fromSecondsFloor 33554431 = .ok ⟨0x40ffff⟩ ∧ Sequence.fromSecondsCeil 33553921 = .err "IntegerOverflow" := by
+  decide
+
+theorem seq_from_seconds_no_panic (s : Nat) (site : String) :
+    Sequence.fromSecondsFloor s ≠ .panic site ∧ Sequence.fromSecondsCeil s ≠ .panic site := by
+  rw [fromSecondsFloor_eq, fromSecondsCeil_eq]
+  constructor <;> split <;> intro c <;> cases c
+
+/-- `from_consensus` / `to_consensus_u32` are the identity on the inner value -/
+theorem seq_consensus_roundtrip (n : Nat) (s : Sequence) :
+    (Sequence.fromConsensus n).toConsensusU32 = n ∧ Sequence.fromConsensus s.toConsensusU32 = s := ⟨rfl, rfl⟩
+
+/-- **the constants do what their documentation says**: `MAX` disables lock time and replace-by-fee; `ZERO`
+    enables both; `ENABLE_LOCKTIME_NO_RBF` enables the absolute lock time only; `ENABLE_RBF_NO_LOCKTIME`
+    enables replace-by-fee and the absolute lock time; none of the three high constants is a relative lock time -/
+theorem seq_constants_as_documented :
+    (Sequence.max.isFinal = true ∧ Sequence.max.enablesAbsoluteLockTime = false ∧ Sequence.max.isRbf = false ∧
+      Sequence.max.isRelativeLockTime = false) ∧
+    (Sequence.zero.isRbf = true ∧ Sequence.zero.enablesAbsoluteLockTime = true ∧ Sequence.zero.isHeightLocked = true) ∧
+    (Sequence.enableLocktimeNoRbf.enablesAbsoluteLockTime = true ∧ Sequence.enableLocktimeNoRbf.isRbf = false ∧
+      Sequence.enableLocktimeNoRbf.isRelativeLockTime = false) ∧
+    (Sequence.enableRbfNoLocktime.isRbf = true ∧ Sequence.enableRbfNoLocktime.enablesAbsoluteLockTime = true ∧
+      Sequence.enableRbfNoLocktime.isRelativeLockTime = false) ∧
+    Sequence.default = Sequence.max := by decide
+
+/-! #### bridge: the BIP370 lock time as a `LockTime` -/
+
+/-- **the lock time a PSET selects, viewed as a `LockTime`, honours every input**: when some input constrains
+    the lock time and `locktime()` returns `n`, then `LockTime::from_consensus(n)` is a lock time `l` such that
+    * `l` is a block height exactly when every constraining input supports a height (height preferred);
+    * every constraining input states a requirement of the unit of `l`;
+    * `l` is `>=` every stated requirement of its unit — hence **any (height, time) that satisfies `l` (via
+      `is_satisfied_by`) satisfies each of them**;
+    * `l` is itself one of the stated requirements (the maximum, not more).
+    `reqLocks r` are the requirements of input `r` as `LockTime`s (`LockTime::from`); `WellTyped`: heights below,
+    times at or above the threshold, as the Rust types guarantee. -/
+theorem locktime_honours_inputs (fb : Option Nat) (reqs : List LockReq) (hw : WellTyped reqs)
+    (hc : ∃ r ∈ reqs, constraining r = true) (n : Nat) (h : locktimeOf fb reqs = .ok n) :
+    ∃ l, LockTime.fromConsensus n = .ok l ∧
+      (l.isBlockHeight = true ↔ ∀ r ∈ reqs, constraining r = true → r.2.isSome = true) ∧
+      (∀ r ∈ reqs, constraining r = true → ∃ q ∈ reqLocks r, q.isSameUnit l = true) ∧
+      (∀ r ∈ reqs, ∀ q ∈ reqLocks r, q.isSameUnit l = true → q.le l = true) ∧
+      (∀ hgt tm, l.isSatisfiedBy hgt tm = true →
+        ∀ r ∈ reqs, ∀ q ∈ reqLocks r, q.isSameUnit l = true → q.isSatisfiedBy hgt tm = true) ∧
+      (∃ r ∈ reqs, l ∈ reqLocks r) := by
+  obtain ⟨l, h1, h2, h3, h4, h5⟩ := bridge_core fb reqs hw hc n h
+  exact ⟨l, h1, h2, h3, h4,
+    fun hgt tm hs r hr q hq hu => isSatisfiedBy_of_le q l hgt tm (h4 r hr q hq hu) hs, h5⟩
+/-- the hypotheses are satisfiable: a time-only input forces the time unit, 500000009 dominates both times -/
+example : WellTyped [(some 500000005, some 7), (some 500000009, none)] ∧
+    (∃ r ∈ [((some 500000005 : Option Nat), (some 7 : Option Nat)), (some 500000009, none)], constraining r = true) ∧
+    locktimeOf (some 77) [(some 500000005, some 7), (some 500000009, none)] = .ok 500000009 := by
+  refine ⟨?_, ⟨_, List.mem_cons_self, rfl⟩, by decide⟩
+  intro r hr
+  simp only [List.mem_cons, List.not_mem_nil, or_false] at hr
+  rcases hr with rfl | rfl <;> constructor <;> intro x hx <;> cases hx <;> decide
+
+/-- **the error case exactly**: `LocktimeConflict` iff some input supports only a time lock and some input
+    only a height lock -/
+theorem locktime_conflict_iff (fb : Option Nat) (reqs : List LockReq) :
+    locktimeOf fb reqs = .err "LocktimeConflict" ↔
+      (∃ r ∈ reqs, r.1.isSome = true ∧ r.2.isSome = false) ∧ (∃ r ∈ reqs, r.2.isSome = true ∧ r.1.isSome = false) :=
+  conflict_iff fb reqs
+
+/-- **the fallback case exactly**: when no input constrains the lock time the result is the fallback, or
+    `LockTime::ZERO` (consensus value 0) when there is none -/
+theorem locktime_fallback_exact (fb : Option Nat) (reqs : List LockReq) (hno : ∀ r ∈ reqs, constraining r = false) :
+    locktimeOf fb reqs = .ok (fb.getD 0) ∧
+    (fb = none → LockTime.fromConsensus (fb.getD 0) = .ok LockTime.zero) := by
+  refine ⟨fallback_iff fb reqs hno, ?_⟩
+  intro h; subst h; decide
+example : ∀ r ∈ [((none : Option Nat), (none : Option Nat))], constraining r = false := by decide
+
+/-- **the typed function and the untyped model agree**: `locktimeTyped` keeps the `Time` / `Height` / `LockTime`
+    types of the Rust code (`x.into()`, `unwrap_or(LockTime::ZERO)`); its consensus value is what `locktimeOf`
+    computes on the erased numbers, error for error and (no) panic for panic -/
+theorem locktime_typed_agrees (fb : Option LockTime) (reqs : List TypedReq) :
+    (locktimeTyped fb reqs).map LockTime.toConsensusU32 =
+      locktimeOf (fb.map LockTime.toConsensusU32) (reqs.map TypedReq.erase) :=
+  locktimeTyped_erase fb reqs
+
+/-- … and on values of the types (`TypedValid`) the typed result is a value of `LockTime` and is exactly
+    `LockTime::from_consensus` of the number the untyped model returns: the `Blocks`/`Seconds` variant chosen
+    by the match arm coincides with the threshold test -/
+theorem locktime_typed_view (fb : Option LockTime) (reqs : List TypedReq) (hfb : ∀ l, fb = some l → l.Valid)
+    (hv : TypedValid reqs) (l : LockTime) (h : locktimeTyped fb reqs = .ok l) :
+    l.Valid ∧ locktimeOf (fb.map LockTime.toConsensusU32) (reqs.map TypedReq.erase) = .ok l.toConsensusU32 ∧
+    LockTime.fromConsensus l.toConsensusU32 = .ok l := by
+  have hval := locktimeTyped_valid fb reqs hfb hv l h
+  refine ⟨hval, ?_, fromConsensus_toConsensus l hval⟩
+  rw [← locktimeTyped_erase, h]
+  rfl
+example : TypedValid [(some ⟨500000005⟩, some ⟨7⟩)] ∧
+    locktimeTyped (some (.seconds ⟨500000000⟩)) [(some ⟨500000005⟩, some ⟨7⟩)] = .ok (.blocks ⟨7⟩) := by
+  refine ⟨?_, by decide⟩
+  intro r hr
+  simp only [List.mem_cons, List.not_mem_nil, or_false] at hr
+  subst hr
+  constructor <;> intro x hx <;> cases hx <;> decide
+
+/-- **sequences in the PSET views**: an input without `sequence` extracts to the final sequence
+    (`unwrap_or(Sequence::MAX)`), which does not enable the absolute lock time; the unique id zeroes every
+    sequence with `Sequence::from_height(0)`, which is `Sequence::ZERO`, is not final and enables it -/
+theorem extract_default_sequence_is_final (x : PsetInput) (h : x.sequence = none) :
+    x.toTxIn.sequence = Sequence.max.n ∧ (Sequence.fromConsensus x.toTxIn.sequence).isFinal = true ∧
+    (Sequence.fromConsensus x.toTxIn.sequence).enablesAbsoluteLockTime = false := by
+  have hs : x.toTxIn.sequence = 0xffffffff := by
+    rw [(toTxIn_fields x).2.2.2.2.1, h]; rfl
+  rw [hs]
+  decide
+example : ({} : PsetInput).sequence = none := rfl
+
+theorem unique_id_sequence_is_from_height_zero :
+    Sequence.fromHeight 0 = Sequence.zero ∧ (Sequence.fromHeight 0).toConsensusU32 = 0 ∧
+    (Sequence.fromHeight 0).isFinal = false ∧ (Sequence.fromHeight 0).enablesAbsoluteLockTime = true := by decide
 
 end EV.Props.C08
